@@ -23,7 +23,9 @@ Inductive exn :=
 | XRun (e : nat).             (* raised by run() *)
 
 Inductive ev :=
-| Reg (id : nat) (pass : bool)      (* add_teardown_callback on the root context (pass_exception) *)
+| Reg (id : nat) (pass : bool) (kids : list (nat * bool))
+                                    (* add_teardown_callback on the root context (pass_exception); when the
+                                       callback runs it registers further callbacks (kids) on the root context *)
 | Svc (sid : nat)                   (* start_service_task on the root context *)
 | Fail                              (* a component raises while being created / prepared / started *)
 | Hang                              (* a component does not finish starting: the startup times out *)
@@ -33,7 +35,7 @@ Inductive ev :=
 | RunReturn (r : result)            (* CLI applications only *)
 | RunRaise (e : nat).
 
-Inductive item := ICb (id : nat) (pass : bool) | ISvc (sid : nat).
+Inductive item := ICb (id : nat) (pass : bool) (kids : list (nat * bool)) | ISvc (sid : nat).
 
 (* what brought the startup down *)
 Inductive scause :=
@@ -55,7 +57,7 @@ Definition first_cause (c : option scause) (n : scause) : option scause :=
 
 Definition step (s : st) (e : ev) : st :=
   match e with
-  | Reg id p => St (stack s ++ [ICb id p]) (started s) (cause s) (signalled s) (crashed s) (runres s)
+  | Reg id p kids => St (stack s ++ [ICb id p kids]) (started s) (cause s) (signalled s) (crashed s) (runres s)
   | Svc sid => St (stack s ++ [ISvc sid]) (started s) (cause s) (signalled s) (crashed s) (runres s)
   | Fail => if started s then s else St (stack s) false (first_cause (cause s) ByError) (signalled s) (crashed s) (runres s)
   | Hang => if started s then s else St (stack s) false (first_cause (cause s) ByCancel) (signalled s) (crashed s) (runres s)
@@ -118,7 +120,9 @@ Definition exit_of (z : Z) : outcome :=
    block when they asked for it), the finalizer of a service task cancels it and waits for it *)
 Definition td_item (a : arg) (dead : option nat) (i : item) : list obs :=
   match i with
-  | ICb id p => [Td id (if p then a else ANoArg)]
+  | ICb id p kids =>
+      (* what the callback registers while it runs lands on top of the stack and is popped next *)
+      Td id (if p then a else ANoArg) :: map (fun k : nat * bool => Td (fst k) (if snd k then a else ANoArg)) (rev kids)
   | ISvc sid => match dead with
                 | Some d => if Nat.eqb d sid then [] else [SvcCancelled sid]
                 | None => [SvcCancelled sid]
